@@ -4,7 +4,7 @@
    coordinate [coord_text r c].  [read_table cf sh] = (items yielded by iter_table, exception that
    ended the iteration if any); an item is [Some object] or [None] (row without id values). *)
 From Coq Require Import ZArith List Bool.
-From AK Require Import Common.Err C18.Base gen.C18_Consts C18.Model C18.Lemmas C18.LemmasLadder C18.LemmasCoord C18.LemmasRange.
+From AK Require Import Common.Err C18.Base gen.C18_Consts C18.Model C18.Lemmas C18.LemmasLadder C18.LemmasCoord C18.LemmasRange C18.Session C18.LemmasSession.
 Import ListNotations.
 
 (* the origin markers read from the source can never be mistaken for a coordinate *)
@@ -264,3 +264,71 @@ Example ex_read :
   Forall (fun vs => length vs = 5%nat) ex_sheet /\ cf_ladder ex_cf = true /\ stop_first ex_cf = false.
 Proof. vm_compute. repeat split; repeat constructor. Qed.
 Print Assumptions ex_read.
+
+(* ---------------------------------------------------------------------------------------- *)
+(* Sessions (Session.v): several readings in one process -- any sheets, any rule sets, any entry
+   point -- with in-place edits, by the caller, of values of produced objects in between.
+   [reads_of ops] are the (rules, sheet, keys, entry point kind) of the readings of the session in
+   order, [read_spec s] is reading s on its own, [targeted ops r j a] says that some edit of the
+   session is applied to attribute a of object j of reading r.
+
+   session_local: at the END of the session the r-th reading still is what reading its sheet with
+   its rules on its own gives: the same exception, the same number of items, no object for the same
+   rows, every origin, and every attribute value that the caller did not edit itself -- whatever was
+   read before or after (same or other sheet / rules / class) and whatever the caller did to OTHER
+   values.  With origin_consistent this is the property's first sentence for every object of every
+   reading of a process, not only for the first reading of a fresh one. *)
+Theorem session_local : forall ops r s,
+  nth_error (reads_of ops) r = Some s ->
+  exists rd, nth_error (run_session ops) r = Some rd /\
+    rd_err rd = rd_err (read_spec s) /\ rd_qkeys rd = rd_qkeys (read_spec s) /\
+    length (rd_items rd) = length (rd_items (read_spec s)) /\
+    forall j x x0, nth_error (rd_items rd) j = Some x -> nth_error (rd_items (read_spec s)) j = Some x0 ->
+      match x, x0 with
+      | None, None => True
+      | Some o, Some o0 =>
+          length (o_attrs o) = length (o_attrs o0) /\
+          forall a, nth_error (map snd (o_attrs o)) a = nth_error (map snd (o_attrs o0)) a /\
+                    (targeted ops r j a = false -> nth_error (o_attrs o) a = nth_error (o_attrs o0) a)
+      | _, _ => False
+      end.
+Proof. exact session_local_lemma. Qed.
+Print Assumptions session_local.
+
+(* without edits a session is the list of its readings, each on its own *)
+Theorem session_no_edits : forall ops,
+  (forall o, In o ops -> match o with ORead _ _ _ _ => True | OMut _ _ _ _ _ => False end) ->
+  run_session ops = map read_spec (reads_of ops).
+Proof. exact session_no_edits_lemma. Qed.
+Print Assumptions session_no_edits.
+
+(* an edit is applied to the value it names (the model does not lose the caller's edits) *)
+Theorem session_edit_applied : forall ops r j a inner m rd o p,
+  nth_error (run_session ops) r = Some rd ->
+  nth_error (rd_items rd) j = Some (Some o) ->
+  nth_error (o_attrs o) a = Some p ->
+  exists rd' o',
+    nth_error (run_session (ops ++ [OMut r j a inner m])) r = Some rd' /\
+    nth_error (rd_items rd') j = Some (Some o') /\
+    nth_error (o_attrs o') a = Some (mut_value inner m (fst p), snd p).
+Proof. exact session_edit_applied_lemma. Qed.
+Print Assumptions session_edit_applied.
+
+(* non-vacuity: two rows with the same list text are read twice; the caller appends to the list of
+   the first object of the first reading; the second object and the second reading are untouched *)
+Definition ex_list_sheet : list (list cval) :=
+  [ [CStr [73]; CStr [84]];                                   (* I T *)
+    [CInt 1; CStr [97; 44; 98]];                              (* 1 "a,b" *)
+    [CInt 2; CStr [97; 44; 98]] ].
+Definition ex_list_cf : config :=
+  mkConfig [RPlain [73] (mkConv KInt None None None) None;
+            RPlain [84] (mkConv KList None None None) None] 1 [] false.
+Example ex_session :
+  map (fun rd => map (option_map (fun o => map fst (o_attrs o))) (rd_items rd))
+      (run_session [ORead ex_list_cf ex_list_sheet [] false; OMut 0 0 1 None [8224]; ORead ex_list_cf ex_list_sheet [] true]) =
+  [ [ Some [VS (VInt 1); VS (VList [[97]; [98]; [8224]])]; Some [VS (VInt 2); VS (VList [[97]; [98]])] ];
+    [ Some [VS (VInt 1); VS (VList [[97]; [98]])]; Some [VS (VInt 2); VS (VList [[97]; [98]])] ] ] /\
+  targeted [ORead ex_list_cf ex_list_sheet [] false; OMut 0 0 1 None [8224]; ORead ex_list_cf ex_list_sheet [] true] 0 0 1 = true /\
+  targeted [ORead ex_list_cf ex_list_sheet [] false; OMut 0 0 1 None [8224]; ORead ex_list_cf ex_list_sheet [] true] 1 0 1 = false.
+Proof. vm_compute. repeat split. Qed.
+Print Assumptions ex_session.
